@@ -82,6 +82,39 @@ def oob_polarity(ck, prog):
             if term[0] == "idx" and term[2][0] == "arg" and term[2][1] == 3 and term[1][0] == "field" and term[1][2] == "1":
                 masks.append((sb, term, tb, fb))
         problems = []
+        if len(preds) == 1 and not masks:
+            # filter form: zip(trees, samples).filter(|(_, m)| !m[row]) and the loop predicts with item.0
+            from sa.prov import subst_upvars
+            pb, pt = preds[0]
+            tree = res.operand(pt["args"][0])
+            fl = [s for s in subterms(tree) if s[0] == "call" and s[1].endswith("Iterator::filter") and len(s[2]) == 2]
+            okf = False
+            why = "no mask test found (neither a branch nor a filter on the zipped iterator)"
+            if fl:
+                src, clo = fl[0][2]
+                cb = prog.get(clo[1][len("closure:"):]) if clo[0] == "agg" and clo[1].startswith("closure:") else None
+                cr = Resolver(cb).local(0) if cb else None
+                neg = False
+                while cr is not None and cr[0] == "un" and cr[1] == "Not":
+                    neg = not neg
+                    cr = cr[2]
+                zipped = any(s[0] == "call" and s[1].endswith("Iterator::zip") for s in subterms(src)) and \
+                    any(s[0] == "field" and s[2] == "trees" for s in subterms(src)) and any(s[0] == "field" and s[2] == "samples" for s in subterms(src))
+                if cr is not None and cr[0] == "idx" and cr[1][0] == "field" and cr[1][2] == "1" and cr[1][1][0] == "arg":
+                    rowv = subst_upvars(prog, cb, cr[2])
+                    row_ok = rowv[0] == "arg" and rowv[1] == 3
+                    tree_ok = tree[0] == "field" and tree[2] == "0"
+                    if neg and zipped and row_ok and tree_ok:
+                        okf = True
+                    else:
+                        why = f"filter keeps mask {'false' if neg else 'TRUE'} items; zipped={zipped}, row={row_ok}, tree component 0={tree_ok}"
+                else:
+                    why = f"filter predicate `{render(cr)[:60] if cr else None}` is not mask[row]"
+            if okf:
+                ck.ok(rule, inst, b.path, b.where(pb), "zip(trees, samples).filter(|(_, m)| !m[row]); predicts with item.0")
+            else:
+                ck.violation(rule, inst, b.path, f"{b.loc[0]}:{b.loc[1]}", expected="prediction under !mask[row], mask and tree from the same zip item", found=why)
+            continue
         if len(preds) != 1:
             problems.append(f"expected one tree prediction, found {len(preds)}")
         if len(masks) != 1:
@@ -142,7 +175,7 @@ def mask_provenance(ck, prog):
         for bb, t in pushes:
             v = res.operand(t["args"][1])
             clos = [s for s in subterms(v) if s[0] == "agg" and s[1].startswith("closure:")]
-            if clos and any(s[0] == "call" and s[1].endswith("Iterator::map") for s in subterms(v)):
+            if clos and v[0] == "call" and v[1].endswith(("Iterator::collect",)) and any(s[0] == "call" and s[1].endswith("Iterator::map") for s in subterms(v)):
                 maskpush = (bb, v, clos[0])
         problems = []
         if len(fwl) != 1:
@@ -153,6 +186,13 @@ def mask_provenance(ck, prog):
             sample_term = res.operand(fwl[0][1]["args"][2])
             bb, v, clo = maskpush
             maps = [s for s in subterms(v) if s[0] == "call" and s[1].endswith("Iterator::map")]
+
+            def pred_of(m):
+                c_ = m[2][1]
+                cb_ = prog.get(c_[1][len("closure:"):]) if c_[0] == "agg" and c_[1].startswith("closure:") else None
+                return G._cond(None, Resolver(cb_).local(0)) if cb_ else None
+            # the map whose closure is a comparison (the mask predicate), not e.g. the label-index map
+            maps = sorted(maps, key=lambda m: 0 if pred_of(m) else 1)
             src = maps[0][2][0]
             clo = maps[0][2][1]
             while src[0] == "call" and src[1].endswith(("::iter", "::into_iter", "::deref")) and len(src[2]) == 1:
